@@ -25,7 +25,7 @@ LEVEL = 'exploration'
 TECHNIQUE = ('bounded enumeration of the (operand, target mode) matrix plus Hypothesis-drawn operands; oracles: kind table, CPython parse of the result through embeddings, '
              'token / sub-expression conservation, route agreement (formatted vs pure AST, implicit put vs explicit conversion)')
 RULE = ('Operands: every (mode, source) pair harvested from the repository test data (incl. data_coerce), the donor tables of gen.py for every node kind and '
-        'layout variants (comments, line breaks inside brackets, redundant parentheses); targets: the 44 literals of fst.parsex.Mode and every concrete ast class name. '
+        'layout variants (comments, line breaks inside brackets, redundant parentheses) and long chains (5-component dotted names, 5-way MatchOr / BinOp); targets: the 44 literals of fst.parsex.Mode and every concrete ast class name. '
         'For each pair, via as_(mode, copy=True), as_(mode) on a scratch copy, FST(node, mode) and FST(pure_ast, mode): the call raises or returns a root whose '
         'class satisfies the kind table of the mode, that satisfies the C01 invariant and C07\'s standalone-piece clause (CPython parse through the embedding of '
         'its kind reproduces the tree), whose source re-parses in the requested mode to the same structure, whose NAME (non-keyword) / NUMBER / STRING / f-string '
